@@ -233,6 +233,26 @@ def native_canonical_bad(bins, b, ob):
                 for k in pos:
                     covered[shapes[k]] = w
                 break
+    # leftovers: exactly the formatter's documented walk over (high rank, kicker rank, suit, suit) as a function of the SET of leftovers
+    cps = []
+    for t in toks:
+        body = t.split(':')[0]
+        if len(body) == 4 and body[1] in SUIT_CH:
+            cps.append((RANK_CH.index(body[0]), SUIT_CH.index(body[1]), RANK_CH.index(body[2]), SUIT_CH.index(body[3])))
+    have = set(cps)
+    walk = []
+    for r1 in range(13):
+        for r2 in range(r1, 13):
+            for s1 in range(4):
+                for s2 in range(4):
+                    a_, b_ = (r1, s1), (r2, s2)
+                    if a_ == b_:
+                        continue
+                    lo_, hi_ = (a_, b_) if a_ < b_ else (b_, a_)
+                    if (lo_[0], lo_[1], hi_[0], hi_[1]) in have:
+                        walk.append((lo_[0], lo_[1], hi_[0], hi_[1]))
+    if cps != walk:
+        return f'single-combo tokens are not in (high rank, kicker rank, suit, suit) order in {text!r}'
     if [x[:2] for x in seq] != sorted(x[:2] for x in seq):
         return f'rank-pair tokens out of order in {text!r}'
     for x, y in zip(seq, seq[1:]):
